@@ -23,7 +23,7 @@ func deviationsAt(sc *dscenario, rec sim.Rec) []string {
 		l := []string{sim.DevHTTP500, sim.DevHTTP403, sim.DevHTTP502E, sim.DevHTTP400J, sim.DevMalformed, sim.DevClose, sim.DevStall, sim.DevStallBody, sim.DevAPIError,
 			sim.DevRedirClose, sim.DevRedirLoop, sim.DevTruncated, sim.DevHTTP404Echo}
 		if rec.Class == sim.ClSave {
-			l = append(l, sim.DevCommitMsg, sim.DevJobFail, sim.DevJobPend)
+			l = append(l, sim.DevCommitMsg, sim.DevJobFail, sim.DevJobPend, sim.DevJobPendLong)
 		}
 		return l
 	}
